@@ -232,13 +232,13 @@ def build_traces(path, tier, seed):
     # one LARGE object job (npts x min_dt_ratio x periods above 2^23 response samples: implementations may work through the periods in
     # blocks): a handful of its periods, short and long, validated against the step rule of the WHOLE list
     if True:
-        n, nper = (2300, 1000) if tier == "quick" else (3200, 1200)
-        dt = 0.01
+        n, nper = (2300, 1500) if tier == "quick" else (3200, 2000)
+        dt = 0.05              # (coarse sampling: every period of the list is short enough for the refinement to matter)
         a, shape = gen.record(rng, n, shape="noise", amp=1.0)
-        plist = np.sort(np.concatenate([[0.05], rng.uniform(0.05, 6.0, size=nper - 1)]))
+        plist = np.sort(np.concatenate([[0.25], rng.uniform(0.25, 4.0, size=nper - 1)]))
         o = eqsig.AccSignal(np.array(a), dt, response_times=plist.copy())
         o.gen_response_spectrum()
-        pick = sorted(set([0, nper - 1, int(nper * 0.6), int(nper * 0.9)]))
+        pick = sorted(set([0, nper - 1] + list(range(nper // 10, nper, nper // 10))))
         add({"kind": "object", "dt": enc(dt), "xi": enc(0.05), "a": enc_seq(a), "periods": enc_seq(plist[pick]), "tmin": enc(float(plist[0])), "raised": False, "q": 4,
              "sd": enc_seq(np.asarray(o.s_d)[pick]), "sv": enc_seq(np.asarray(o.s_v)[pick]), "sa": enc_seq(np.asarray(o.s_a)[pick])},
             {"kind": "object", "n": n, "dt": dt, "xi": 0.05, "min_dt_ratio": 4, "T_over_dt": [float(plist[k] / dt) for k in pick],
